@@ -107,8 +107,8 @@ Definition check_f (c : fcase) : list kind :=
 Record hobs := { ho_arm : N;          (* 0 sent (nil error)  1 context error  2 timeout error  3 anything else *)
                  ho_delivered : bool; (* the channel received an event from this call *)
                  ho_same : bool;      (* ... and it is the very event passed to Process *)
-                 ho_latency : Z }.    (* ms *)
-Record hcase := { h_timeout : Z; h_chan_at : option Z; h_ctx_at : option Z; h_slack : Z; h_obs : hobs }.   (* ms, t0 = 0 *)
+                 ho_latency : Z }.    (* microseconds *)
+Record hcase := { h_timeout : Z; h_chan_at : option Z; h_ctx_at : option Z; h_slack : Z; h_obs : hobs }.   (* microseconds, t0 = 0 *)
 
 Definition check_h (c : hcase) : list kind :=
   let T := {| t0 := 0; timeout := h_timeout c; chan_at := h_chan_at c; ctx_at := h_ctx_at c |} in
@@ -125,8 +125,8 @@ Definition check_h (c : hcase) : list kind :=
    | None => [] end) ++
   (* a timeout error is never reported before the timeout has elapsed (time.After never fires early) *)
   (match a with Some ATimeout => if Z.ltb (ho_latency o) (h_timeout c) then [KChanEarly] else [] | _ => [] end) ++
-  (* generous: the call took no more than 50x the time at which it should have returned (+ 50 x 20 ms) *)
-  (if Z.leb (ho_latency o) (50 * (ret_time T + 20)) then [] else [KChanLatency]).
+  (* generous: the call took no more than 50x the time at which it should have returned (+ 50 x 20 ms; all times in microseconds so that sub-millisecond timeouts are exact) *)
+  (if Z.leb (ho_latency o) (50 * (ret_time T + 20000)) then [] else [KChanLatency]).
 
 (* ---------- CP: FileSink.Process with writes that fail part-way (RLIMIT_FSIZE = limit bytes per file) ----------
    The harness child process lowers RLIMIT_FSIZE, so a write(2) that would take a file beyond [p_limit] bytes accepts only what
@@ -173,7 +173,7 @@ Record gobs := { go_arms : list N;        (* per caller: 0 sent, 2 timeout error
                  go_hung : N;             (* callers that had not returned when the watchdog fired *)
                  go_delivered_ok : bool;  (* the channel holds exactly the very events of the callers that reported success (besides the prefill) *)
                  go_early : bool;         (* some timeout error came back before the timeout had elapsed *)
-                 go_latency : Z }.        (* the slowest returned call, ms *)
+                 go_latency : Z }.        (* the slowest returned call, microseconds *)
 Record gcase := { g_free : N; g_n : N; g_timeout : Z; g_obs : gobs }.
 
 Definition countN (x : N) (l : list N) : N := N.of_nat (length (filter (N.eqb x) l)).
@@ -184,7 +184,7 @@ Definition check_g (c : gcase) : list kind :=
       N.eqb (countN 0 (go_arms o) + countN 2 (go_arms o) + go_hung o) (g_n c) then [] else [KChanArm]) ++
   (if go_delivered_ok o then [] else [KChanExactlyOne]) ++
   (if go_early o then [KChanEarly] else []) ++
-  (if Z.leb (go_latency o) (50 * (g_timeout c + 20)) then [] else [KChanLatency]).
+  (if Z.leb (go_latency o) (50 * (g_timeout c + 20000)) then [] else [KChanLatency]).
 
 (* ---------- all together ---------- *)
 Inductive scase := CW (c : wcase) | CC (c : ccase) | CF (c : fcase) | CH (c : hcase) | CP (c : pcase) | CG (c : gcase).
